@@ -354,3 +354,152 @@ theorem scanToWsB_sim (dia : Dialect) (mf L0 : Nat) : ∀ (fuel : Nat) (s : BS) 
           (by rw [hs.2.1, hs.2.2.2.2.2.2.2.1, hL])
         rw [hs.2.2.2.2.2.2.2.1, hs.2.2.2.1, hs.2.2.2.2.1, hrc] at this
         exact this
+
+theorem scanToEolB_sim (dia : Dialect) (mf L0 : Nat) : ∀ (fuel : Nat) (s : BS) (top : Nat) (lead : Bool), Good mf s →
+    top = s.sb.limit → s.sb.tvalueOffset = 0 → (lead = true → 0 < s.text.length) → s.measure < fuel →
+    s.text.length + s.remaining.length = L0 →
+    Sim (Out mf L0) (scanToEolB dia mf fuel s top lead) (scanToEol dia s.remaining s.line s.col lead (racc 0 s)) := by
+  intro fuel
+  induction fuel with
+  | zero => intro s top lead g ht h0 hl hm hL; omega
+  | succ fuel ih =>
+    intro s top lead g ht h0 hl hm hL
+    subst ht
+    unfold scanToEolB
+    by_cases hlt : s.sb.next < s.sb.limit
+    · rw [if_pos hlt, remaining_cons mf s g hlt]
+      simp only [scanToEol, bind_eq, pure_eq]
+      apply scanU_sim mf dia s lead 0 g hlt (Nat.zero_le _) hl
+      intro u a hr
+      have hrem : (s.remaining).tail = (stepU dia s u).remaining := by rw [a.rem]; rfl
+      by_cases hws : classOf dia u.c = .eol
+      · simp only [hws, if_true]
+        apply sim_pure
+        have b := adv_backUp a g 0 (Nat.zero_le _)
+        have o := out_endDelim mf L0 (backUp (stepU dia s u)) 0 0 b.1 (by rw [b.2.2.2.2.2.1, h0]) (Nat.zero_le _) (by rw [b.2.2.2.2.2.2.2, hL])
+        rw [b.2.1, hr, b.2.2.1, b.2.2.2.1, b.2.2.2.2.1, stepU_col, stepU_line, ← hrem] at o
+        exact o
+      · simp only [hws, if_false]
+        have := ih (stepU dia s u) s.sb.limit u.lead a.good a.limit.symm (by rw [a.tvoff, h0])
+          (fun _ => by rw [a.tlen g]; omega) (by have := a.measure; omega) (by rw [a.sum g, hL])
+        rw [hr, ← hrem, stepU_col, stepU_line] at this
+        exact this
+    · rw [if_neg hlt]
+      have hnl : s.sb.next = s.sb.limit := by have := g.inv.2.2.1; omega
+      have hs := getMore_spec mf s g hnl
+      have hrc : racc 0 (getMore mf s).2 = racc 0 s := by unfold racc; rw [hs.2.1]
+      show Sim _ (if (getMore mf s).1 = true then _ else _) _
+      cases hb : (getMore mf s).1
+      · rw [if_neg (by simp)]
+        have hr := (hs.2.2.2.2.2.2.2.2.1 hb).1
+        rw [hr]
+        simp only [scanToEol, bind_eq, pure_eq]
+        have hu := unpairedLeadB_sim mf dia (getMore mf s).2 lead 0 hs.1 (Nat.zero_le _) (by rw [hs.2.1]; exact hl)
+        rw [hrc, hs.2.2.2.1, hs.2.2.2.2.1] at hu
+        apply sim_bind hu
+        intro s' acc' ⟨g', e1, e2, e3, e4, e5, e6⟩
+        apply sim_pure
+        have o := out_endDelim mf L0 s' 0 0 g' (by rw [e5, hs.2.2.1, h0]) (Nat.zero_le _)
+          (by rw [e6, e2, hs.2.1, hs.2.2.2.2.2.2.2.1, hL])
+        subst e1
+        rw [e2.trans (hs.2.2.2.2.2.2.2.1.trans hr), e3, e4] at o
+        exact o
+      · rw [if_pos rfl]
+        have := ih (getMore mf s).2 (getMore mf s).2.sb.limit lead hs.1 rfl (by rw [hs.2.2.1, h0]) (by rw [hs.2.1]; exact hl)
+          (by simp only [BS.measure, hs.2.2.2.2.2.2.2.1] at hm ⊢; have := (hs.2.2.2.2.2.2.2.2.2 hb).2; omega)
+          (by rw [hs.2.1, hs.2.2.2.2.2.2.2.1, hL])
+        rw [hs.2.2.2.2.2.2.2.1, hs.2.2.2.1, hs.2.2.2.2.1, hrc] at this
+        exact this
+
+/-! ### scan_unquoted -/
+
+theorem scanUnquotedB_sim (dia : Dialect) (mf L0 : Nat) : ∀ (fuel : Nat) (s : BS) (top : Nat) (lead : Bool) (k : Nat) (kd ks : Bool),
+    Good mf s → top = s.sb.limit → s.sb.tvalueOffset = 0 → (lead = true → 0 < s.text.length) → s.measure < fuel →
+    s.text.length + s.remaining.length = L0 →
+    Sim (Out mf L0) (scanUnquotedB dia mf fuel s top lead k kd ks)
+      (scanUnquoted dia s.remaining s.line s.col lead (racc 0 s) k kd ks) := by
+  intro fuel
+  induction fuel with
+  | zero => intro s top lead k kd ks g ht h0 hl hm hL; omega
+  | succ fuel ih =>
+    intro s top lead k kd ks g ht h0 hl hm hL
+    subst ht
+    unfold scanUnquotedB
+    by_cases hlt : s.sb.next < s.sb.limit
+    · rw [if_pos hlt, remaining_cons mf s g hlt]
+      simp only [scanUnquoted, bind_eq, pure_eq]
+      apply scanU_sim mf dia s lead 0 g hlt (Nat.zero_le _) hl
+      intro u a hr
+      have hrem : (s.remaining).tail = (stepU dia s u).remaining := by rw [a.rem]; rfl
+      have hback : Out mf L0 (endTok (backUp (stepU dia s u)))
+          ⟨fixAcc dia u.fixPrev (racc 0 s), ⟨u.c :: (s.remaining).tail, s.line, u.col - 1⟩⟩ := by
+        have b := adv_backUp a g 0 (Nat.zero_le _)
+        have o := out_endDelim mf L0 (backUp (stepU dia s u)) 0 0 b.1 (by rw [b.2.2.2.2.2.1, h0]) (Nat.zero_le _) (by rw [b.2.2.2.2.2.2.2, hL])
+        rw [b.2.1, hr, b.2.2.1, b.2.2.2.1, b.2.2.2.2.1, stepU_col, stepU_line, ← hrem] at o
+        exact o
+      have hgo : ∀ k' kd' ks', Sim (Out mf L0) (scanUnquotedB dia mf fuel (stepU dia s u) s.sb.limit u.lead k' kd' ks')
+          (scanUnquoted dia (s.remaining).tail s.line u.col u.lead (u.c :: fixAcc dia u.fixPrev (racc 0 s)) k' kd' ks') := by
+        intro k' kd' ks'
+        have := ih (stepU dia s u) s.sb.limit u.lead k' kd' ks' a.good a.limit.symm (by rw [a.tvoff, h0])
+          (fun _ => by rw [a.tlen g]; omega) (by have := a.measure; omega) (by rw [a.sum g, hL])
+        rw [hr, ← hrem, stepU_col, stepU_line] at this
+        exact this
+      cases hmeta : metaOfCls (classOf dia u.c) with
+      | general => simp only []; exact hgo _ _ _
+      | open_ =>
+        simp only []
+        by_cases hc : ((!kd && !ks) || decide (k < 5)) = true
+        · simp only [hc, if_true]
+          rw [stepU_line, stepU_col]
+          apply sim_bind_same
+          intro _
+          apply sim_pure
+          exact hback
+        · simp only [hc, if_false]
+          exact hgo _ _ _
+      | close =>
+        simp only []
+        by_cases hc : ((!kd && !ks) || decide (k < 5)) = true
+        · simp only [hc, if_true]
+          apply sim_pure
+          exact hback
+        · simp only [hc, if_false]
+          exact hgo _ _ _
+      | ws =>
+        simp only []
+        by_cases hc : u.c ≠ eofChar
+        · simp only [hc, ne_eq, not_false_eq_true, if_true]
+          apply sim_pure
+          exact hback
+        · simp only [hc, if_false]
+          apply sim_pure
+          have o := out_endDelim mf L0 (stepU dia s u) 0 0 a.good (by rw [a.tvoff, h0]) (Nat.zero_le _) (by rw [a.sum g, hL])
+          rw [hr, ← hrem, stepU_col, stepU_line] at o
+          exact o
+      | no => simp only []; exact hgo _ _ _
+    · rw [if_neg hlt]
+      have hnl : s.sb.next = s.sb.limit := by have := g.inv.2.2.1; omega
+      have hs := getMore_spec mf s g hnl
+      have hrc : racc 0 (getMore mf s).2 = racc 0 s := by unfold racc; rw [hs.2.1]
+      show Sim _ (if (getMore mf s).1 = true then _ else _) _
+      cases hb : (getMore mf s).1
+      · rw [if_neg (by simp)]
+        have hr := (hs.2.2.2.2.2.2.2.2.1 hb).1
+        rw [hr]
+        simp only [scanUnquoted, bind_eq, pure_eq]
+        have hu := unpairedLeadB_sim mf dia (getMore mf s).2 lead 0 hs.1 (Nat.zero_le _) (by rw [hs.2.1]; exact hl)
+        rw [hrc, hs.2.2.2.1, hs.2.2.2.2.1] at hu
+        apply sim_bind hu
+        intro s' acc' ⟨g', e1, e2, e3, e4, e5, e6⟩
+        apply sim_pure
+        have o := out_endDelim mf L0 s' 0 0 g' (by rw [e5, hs.2.2.1, h0]) (Nat.zero_le _)
+          (by rw [e6, e2, hs.2.1, hs.2.2.2.2.2.2.2.1, hL])
+        subst e1
+        rw [e2.trans (hs.2.2.2.2.2.2.2.1.trans hr), e3, e4] at o
+        exact o
+      · rw [if_pos rfl]
+        have := ih (getMore mf s).2 (getMore mf s).2.sb.limit lead k kd ks hs.1 rfl (by rw [hs.2.2.1, h0]) (by rw [hs.2.1]; exact hl)
+          (by simp only [BS.measure, hs.2.2.2.2.2.2.2.1] at hm ⊢; have := (hs.2.2.2.2.2.2.2.2.2 hb).2; omega)
+          (by rw [hs.2.1, hs.2.2.2.2.2.2.2.1, hL])
+        rw [hs.2.2.2.2.2.2.2.1, hs.2.2.2.1, hs.2.2.2.2.1, hrc] at this
+        exact this
